@@ -200,7 +200,7 @@ func gen(g *core.G) {
 	}
 
 	// (ii) every truncation, single-byte deletion and a few insertions of valid expressions
-	nx := 100
+	nx := 200
 	if g.Thorough() {
 		nx = 300
 	}
@@ -232,7 +232,7 @@ func gen(g *core.G) {
 	}
 
 	// (iii) random byte strings
-	nr := 10000 * g.Scale
+	nr := 40000 * g.Scale
 	for i := 0; i < nr; i++ {
 		emit(g, randBytes(g.Rng))
 	}
